@@ -340,6 +340,9 @@ func c18round(out *evid.Out, f *evid.Flags, round int, specs []reqSpec) {
 		if xid, ok := hlog.IDFromRequest(req); ok {
 			reqIDMu.Lock()
 			reqIDSeen[id] = xid.String()
+			if x2, ok2 := hlog.IDFromCtx(req.Context()); !ok2 || x2 != xid {
+				reqIDSeen[id] = fmt.Sprintf("IDFromRequest=%s but IDFromCtx=%s (ok=%v)", xid, x2, ok2)
+			}
 			reqIDMu.Unlock()
 		}
 		w.Header().Set("Etag", fmt.Sprintf("\"etag-r%dx\"", id))
